@@ -99,6 +99,9 @@ def gen_iso(tier):
     cases = [{"k": "iso", "scn": s, "n": n} for s in (1, 2, 3, 4, 5, 6, 7, 8, 9, 10, 11, 12, 13, 14)]
     # scenario 15: the peer closes ORDERLY (FIN) before the handshake completes, after 0 / 3 / 11 greeting bytes
     cases += [{"k": "iso", "scn": 15, "n": n, "pre": pre} for pre in (0, 3, 11)]
+    # scenario 16: connect() called twice for the same endpoint, both connections closed by the peer: must be retried
+    # (added after the seeded change C17-outbound-test-by-uri-only)
+    cases += [{"k": "iso", "scn": 16, "n": n, "pre": pre, "connects": 2} for pre in (0, 11)]
     cases.append({"k": "iso", "scn": 31, "n": 10, "sockets": 100, "workers": 0})
     cases.append({"k": "iso", "scn": 31, "n": 10, "sockets": 300, "workers": 0})
     hi = 600 if tier == "quick" else 400
@@ -255,6 +258,9 @@ def make_oracle(res):
         if scn == 15:
             what = ("the connection closed orderly by the peer during the handshake (after %d greeting bytes) was never retried / traffic "
                     "did not resume" % c["pre"]) if row[1] != 1 else "socket unusable after reconnect"
+        if scn == 16:
+            what = ("connect() was called twice for one endpoint and the peer closed both connections: the lost outbound connection "
+                    "was never retried / traffic did not resume") if row[1] != 1 else "socket unusable after reconnect"
         if scn == 12:
             what = "traffic did not resume after the peer came back" if row[1] != 1 else "socket unusable after reconnect"
         return "scenario %d: %s (row %s; %s)" % (scn, what, row, o.get("detail"))
